@@ -13,7 +13,7 @@ X = ("fd00::1", 5683)
 S = ("fd00::2", 5683)
 SIZES = [0, 1, 15, 16, 17, 31, 32, 33, 63, 64, 65, 1023, 1024, 1025, 1124, 1125, 2048, 2049, 3000, 5000]
 METHODS = {"GET": 1, "POST": 2, "PUT": 3, "FETCH": 5}
-MISBEHAVIOURS = ["none", "none", "none", "wrong_num_in_block1_ack", "more_on_final_ack", "continue_on_final_ack", "short_nonfinal_block2", "overlong_final_block2", "block2_num_skipped", "etag_change", "block2_num_repeated"]
+MISBEHAVIOURS = ["none", "none", "none", "wrong_num_in_block1_ack", "more_on_final_ack", "continue_on_final_ack", "short_nonfinal_block2", "overlong_final_block2", "block2_num_skipped", "etag_change", "block2_num_repeated", "block2_restart_bigger"]
 
 
 def body(n, salt):
@@ -75,6 +75,14 @@ class RefServer:
             num += max(1, c.get("mis_delta", 1))
             chunk = self.rep[num * size : (num + 1) * size]
             more = (num + 1) * size < len(self.rep)
+            self.applied = True
+        elif mis == "block2_restart_bigger" and index >= 1 and num > 0 and szx < 6 and not self.applied:
+            # "start over with bigger blocks": block 0 again, at a larger size exponent than the one in use
+            szx = min(6, szx + c.get("mis_delta_szx", 1))
+            size = bsize(szx)
+            num = 0
+            chunk = self.rep[:size]
+            more = size < len(self.rep)
             self.applied = True
         elif mis == "block2_num_repeated" and index >= max(1, at) and num > 0 and not self.applied:
             num -= 1
@@ -248,7 +256,7 @@ def run_case(case, want_trace=False):
             ok_code = R.CONTENT if METHODS[case["method"]] in (1, 5) else R.CHANGED
             if int(val.code) != ok_code and not srv.applied:
                 vio.append(V("C05/wrong-response-code", "%s" % val.code))
-            if srv.applied and mis in ("more_on_final_ack", "continue_on_final_ack", "wrong_num_in_block1_ack", "etag_change", "short_nonfinal_block2", "overlong_final_block2", "block2_num_skipped", "block2_num_repeated"):
+            if srv.applied and mis in ("more_on_final_ack", "continue_on_final_ack", "wrong_num_in_block1_ack", "etag_change", "short_nonfinal_block2", "overlong_final_block2", "block2_num_skipped", "block2_num_repeated", "block2_restart_bigger"):
                 vio.append(V("C05/misbehaving-server-accepted/" + mis, "request completed with %s although the server violated the sequencing rules (%s)" % (val.code, mis)))
         elif kind == "exception":
             if not isinstance(val, error.Error):
@@ -301,6 +309,7 @@ def _case(draw):
         "mis_at": draw(st.integers(0, 3)),
         "mis_cut": draw(st.sampled_from(["one", "half", "all"])),
         "mis_delta": draw(st.sampled_from([1, 1, 2, 5, -1])),
+        "mis_delta_szx": draw(st.sampled_from([1, 1, 2, 6])),
         "rng": draw(st.integers(0, 99)),
     }
     if draw(st.integers(0, 3)) == 0:
@@ -334,7 +343,7 @@ RULE = (
     "One block-wise request (PUT/POST/FETCH/GET) through the default API of a real aiocoap client to an independent RFC 7959 reference server on a raw peer; generated: request and response "
     "body lengths from {0,1,15,16,17,31,32,33,63,64,65,1023,1024,1025,1124,1125,2048,2049,3000,5000}, client maximum_block_size_exp 0-6, the server's Block1 size preference per block index "
     "(non-increasing => mid-transfer reductions; optionally advertised even when larger than what the client sends), its Block2 size and an optional mid-transfer Block2 reduction with renumbering, ETag present or not, datagram fates (drop/dup/delay), and a "
-    "misbehaviour (none / wrong NUM in a Block1 ack / M=1 or 2.31 on the final ack / non-final Block2 payload short by one byte, half a block or the whole block / over-long final Block2 payload / Block2 NUM skipped or repeated / ETag changes its value, appears or disappears between blocks). "
+    "misbehaviour (none / wrong NUM in a Block1 ack / M=1 or 2.31 on the final ack / non-final Block2 payload short by one byte, half a block or the whole block / over-long final Block2 payload / Block2 NUM skipped or repeated / block 0 again at a larger size exponent / ETag changes its value, appears or disappears between blocks). "
     "Oracle: conforming server => body reassembled by the reference server == API payload, result payload == representation, expected code, action executed once, and the reference server found every "
     "Block1/Block2 option contiguous (NUM x size == bytes so far), M exactly on non-final blocks, exponent never growing; failure only as NetworkError under loss. Misbehaving server (once the "
     "misbehaviour was actually applied) => the request must end in an aiocoap.error.Error; any result is a violation. Never a result whose payload differs from the representation. "
